@@ -1690,11 +1690,14 @@ def gen_layout(rng):
             subs = targets if with_targets else rng.sample(names, 1) if rng.random() < 0.3 else []
             types = l2_types[img_order.index(name) % len(l2_types)]
             n_chans = rng.choice([1, 2])
-            for t in subs:
+            # the attributes of the FIRST substream decide whether 'l2' is registered: now and then one substream
+            # (the first, or a later one) lacks its spectral attributes
+            bare = rng.randrange(len(subs)) if subs and rng.random() < 0.2 else None
+            for i, t in enumerate(subs):
                 if rng.random() < 0.93:
                     sol_dump = rng.choice(on[t]) if on[t] and rng.random() < 0.85 else rng.randrange(T)
                     sub = good(list(types), name='%s_%s_selfcal' % (name, t), type=None, targets=None,
-                               sol_dump=sol_dump, n_chans=n_chans)
+                               sol_dump=sol_dump, n_chans=n_chans, spectral=i != bare)
                     if rng.random() < 0.06:
                         sub['types'] = []
                     tel.append(sub)
